@@ -72,7 +72,10 @@ def make_entire(name, path, prio, output, reload, safe, unsupported=False, prio_
         ns["reload"] = lambda self, device, _r=reload: _r
     if prio_on == "class":
         ns["prio"] = prio
-    cls = types.new_class(name, (Entire,), {}, lambda d: d.update(ns))
+    base = Entire
+    if prio_on == "base":
+        base = types.new_class(name + "Base", (Entire,), {}, lambda d: d.update({"prio": prio}))  # the priority comes from an intermediate base class
+    cls = types.new_class(name, (base,), {}, lambda d: d.update(ns))
     inst = cls(storage=FakeStorage())
     if prio_on == "instance":
         inst.prio = prio
@@ -167,7 +170,7 @@ def check_case(seed, acc, unsupported=False, perm=False, inst=False):
         # and generators without a reload command of their own
         irng = random.Random(seed ^ 0x1257)
         for g in gens_spec:
-            g["prio_on"] = irng.choice(["instance", "instance", "class"])
+            g["prio_on"] = irng.choice(["instance", "instance", "class", "base", "base"])
             if irng.random() < 0.35:
                 g["reload"] = irng.choice([None, "<none>"])
         if irng.random() < 0.3 and all(g["prio"] != 100 for g in gens_spec):
@@ -193,7 +196,8 @@ def check_case(seed, acc, unsupported=False, perm=False, inst=False):
     for order in orders:
         gens = [make_entire(**{k: v for k, v in gens_spec[i].items()}) for i in order]
         try:
-            res = run_file_generators(gens, dev)
+            # (the selection may arrive as a list or as a one-shot iterator: annet.gen hands over DeviceGenerators.file_gens(device))
+            res = run_file_generators(gens if (seed + len(order)) % 2 else iter(gens), dev)
             nf = res.new_files()
             nfs = res.new_files(safe=True)
         except Exception as e:
